@@ -255,19 +255,23 @@ fn check_faults(t: &mut Tally, text: &str) {
         t.evals += 1;
         t.validated += 1;
         t.transitions += 1;
-        let case = || json!({"bytes": bytes_json(&bytes)});
-        // a line that is not UTF-8: failing the read is one admissible answer; the statement does
-        // not list it among the causes of failure, so a reader that decodes lossily is admissible
-        // too - but then the list must be the complete, unshifted one for the decoded text
-        match guard(|| read_all(&bytes)) {
-            Ok(Err(_)) => t.outcome("fault/invalid-utf8-rejected"),
-            Ok(Ok(g)) => match model(&String::from_utf8_lossy(&bytes)) {
-                Ok(Some(w)) if w == g => t.outcome("fault/invalid-utf8-decoded-lossily"),
-                Ok(None) => t.outcome("skipped/leading-ignorable-block"),
-                w => t.violation(Violation::new("utf8", case(), json!(format!("Err, or {:?}", w)), json!(format!("Ok({:?})", g)), "a line that is not UTF-8 must either fail the read as a whole or be read completely; never a partial or shifted list")),
-            },
-            Err(m) => t.violation(Violation::new("utf8", case(), json!("Err"), json!(format!("panic: {}", m)), "reader panicked")),
-        }
+        check_utf8(t, &bytes);
+    }
+}
+
+/// A line that is not UTF-8: failing the read is one admissible answer; the statement does not
+/// list it among the causes of failure, so a reader that decodes lossily is admissible too - but
+/// then the list must be the complete, unshifted one for the decoded text.
+fn check_utf8(t: &mut Tally, bytes: &[u8]) {
+    let case = || json!({"bytes": bytes_json(bytes)});
+    match guard(|| read_all(bytes)) {
+        Ok(Err(_)) => t.outcome("fault/invalid-utf8-rejected"),
+        Ok(Ok(g)) => match model(&String::from_utf8_lossy(bytes)) {
+            Ok(Some(w)) if w == g => t.outcome("fault/invalid-utf8-decoded-lossily"),
+            Ok(None) => t.outcome("skipped/leading-ignorable-block"),
+            w => t.violation(Violation::new("utf8", case(), json!(format!("Err, or {:?}", w)), json!(format!("Ok({:?})", g)), "a line that is not UTF-8 must either fail the read as a whole or be read completely; never a partial or shifted list")),
+        },
+        Err(m) => t.violation(Violation::new("utf8", case(), json!("Err"), json!(format!("panic: {}", m)), "reader panicked")),
     }
 }
 
@@ -276,12 +280,7 @@ fn replay(doc: &Value) -> Option<Violation> {
     let mut t = Tally::new();
     match doc["kind"].as_str() {
         Some("fault") => check_faults(&mut t, c["text"].as_str().unwrap_or("")),
-        Some("utf8") => {
-            let b = bytes_from_json(&c["bytes"]);
-            if let Ok(Ok(g)) = guard(|| read_all(&b)) {
-                t.violation(Violation::new("utf8", c.clone(), json!("Err"), json!(format!("Ok, {} records", g.len())), ""));
-            }
-        }
+        Some("utf8") => check_utf8(&mut t, &bytes_from_json(&c["bytes"])),
         _ => {
             check_text(&mut t, c["text"].as_str().unwrap_or(""));
         }
